@@ -471,6 +471,9 @@ pub struct Dec<'a> {
 	/// accept over-long varints (the reference treats them as invalid when false)
 	pub lenient_varint: bool,
 	pub max_depth: usize,
+	/// values the decoder is still willing to produce (protects the harness against huge counts
+	/// over zero-sized elements in damaged input)
+	pub budget: usize,
 }
 
 impl<'a> Dec<'a> {
@@ -480,6 +483,7 @@ impl<'a> Dec<'a> {
 			i: 0,
 			lenient_varint: false,
 			max_depth: 200,
+			budget: 5_000_000,
 		}
 	}
 	fn byte(&mut self) -> Result<u8, DecodeError> {
@@ -532,6 +536,10 @@ pub fn decode(s: &RSchema, id: Id, d: &mut Dec, depth: usize) -> Result<Val, Dec
 	if depth > d.max_depth {
 		return Err(DecodeError::TooDeep);
 	}
+	if d.budget == 0 {
+		return Err(DecodeError::Invalid("reference decoder budget exhausted".into()));
+	}
+	d.budget -= 1;
 	Ok(match s.eff(id) {
 		Eff::Null => Val::Null,
 		Eff::Boolean => match d.byte()? {
